@@ -35,6 +35,27 @@ CLAIMED = {
    note="Trusted: TLC, Big.tla, harness loggers. Wider types are sampled (boundary + random). Neg of the unsigned U11 is outside the statement ('negation "
         "of signed ones') and reported as out-of-domain, not judged.",
    design="5/C15"),
+ "C03": dict(
+   text="Frames.tla defines every frame operation as the per-channel lifting, in channel order, of the sample operation of SampleFormats.tla (offset / "
+        "scale = native addition / multiplication on the Signed / Float image converted back; the associated-type table is part of the spec). TLC checks "
+        "the identities (offset 0, scale 0.0, scale 1.0 exact iff the format fits the float companion's mantissa else within 2^(bits-p-2), unsigned "
+        "re-centring, sample = 1-frame) over boundary values of all 14 formats and emits small cases; the harness instantiates one generic driver for "
+        "every width N = 1..32 on all 14 formats and the bare-sample frame (map, zip_map, offset, scale, add, mul, to_signed, to_float, equilibrium, "
+        "from_fn with call order, from_samples with consumed count, channels, channel(i)), logging the type names of the associated types, and TLC judges "
+        "every channel of every result bit for bit.",
+   note="Trusted: TLC, Big/Dyadic/SampleFormats, harness loggers. Offsets/gains are chosen so that the mathematical result is representable (events "
+        "outside that domain are not judged). Values are boundary + random, not exhaustive.",
+   design="5/C03"),
+ "C10": dict(
+   text="Slices.tla models the sample<->frame views (Some iff N divides L, layout frame i channel c = sample iN+c, same address, write-through, inverse), "
+        "the boxed variants (allocation reused with no heap activity; a failed conversion frees exactly the box) and the in-place operations (element-wise "
+        "frame operation; a length mismatch panics with the destination unchanged). TLC checks round trip and layout for N 1..32, L 0..2N+1 and emits "
+        "every (N, L) and every pair of lengths for the two-slice operations; the harness runs them for shared, mutable and boxed slices (all 32 widths on "
+        "i16/f32, all 14 formats on N in {1,2,3,32}) plus random long slices, logging option-ness, length, contents, pointer identity, write-through, heap "
+        "counters and live-byte deltas, and TLC judges each event.",
+   note="Trusted: TLC, harness loggers, the counting allocator. Memory identity is observed through pointer equality and heap counters; aliasing UB with "
+        "no observable effect is out of reach.",
+   design="5/C10"),
  "C04": dict(
    text="Signals.tla gives adaptor terms (map, zip_map, add/mul/scale/offset and per-channel variants, clip, inspect, delay, by_ref, sources, consumers) "
         "two independent semantics: an operational one mirroring each impl Signal (per-node state, shared source cursors, from_iter look-ahead) and a "
@@ -182,7 +203,7 @@ CLAIMED = {
    note="Trusted: TLC, Big/Dyadic/SampleFormats, harness loggers. Hann accuracy away from special points is bounded only by symmetry/range/monotonicity.",
    design="5/C20"),
 }
-NOT_YET = "framework under construction in this session; check not built yet (will be claimed, see DESIGN.md section 5)"
+NOT_YET = "not claimed"
 
 m = {
  "version": 1,
